@@ -18,6 +18,57 @@ G = "write_fonts::graph::Graph::"
 GT = "write_fonts::graph::Graph"
 HAS = G + "has_overflows"
 FIND = G + "find_overflows"
+PO = G + "pack_objects"
+BS = G + "basic_sort"
+SER = G + "serialize"
+
+
+def _resolve_graph(facts):
+    """The packing routines are found from the public entry point `dump_table` and by what they do, not by name:
+    pack_objects is the `&mut Graph -> bool` method dump_table calls, serialize the `&Graph -> Vec<u8>` one; the two overflow
+    queries are the `&Graph` methods (bool / Vec<Overflow>) that compare against OffsetLen::max_value (possibly through a
+    helper); basic_sort is the `&mut Graph -> bool` method pack_objects calls that asks the bool query."""
+    global HAS, FIND, PO, BS, SER
+    dt = facts.body("write_fonts::write::dump_table")
+    if dt is None:
+        return
+
+    def sig(path):
+        b = facts.body(path, _fuzzy=False)
+        if b is None or not path.startswith(G) or "{closure" in path:
+            return None, None, None
+        ins = b.d["sig"]["in"]
+        return b, (ins[0].replace(" ", "") if ins else ""), b.locals[0][0]
+    po = [t.callee for _, t in dt.calls() if sig(t.callee)[1] == "&mut" + GT and sig(t.callee)[2] == "bool"]
+    ser = [t.callee for _, t in dt.calls() if sig(t.callee)[1] == "&" + GT and sig(t.callee)[2].startswith("alloc::vec::Vec<u8")]
+    if len(set(po)) == 1:
+        PO = po[0]
+    if len(set(ser)) == 1:
+        SER = ser[0]
+
+    def reaches_max_value(b, depth=0):
+        if b is None or depth > 2:
+            return False
+        for _, t in b.calls():
+            if t.callee.endswith("OffsetLen::max_value"):
+                return True
+            if t.callee.startswith("write_fonts::graph::") and reaches_max_value(facts.body(t.callee, _fuzzy=False), depth + 1):
+                return True
+        return False
+    qs = [b for b in facts.all_bodies("write_fonts") if b.path.startswith(G) and "{closure" not in b.path
+          and b.path.count("::") == G.count("::") and sig(b.path)[1] == "&" + GT and reaches_max_value(b)]
+    has = [b.path for b in qs if b.locals[0][0] == "bool"]
+    find = [b.path for b in qs if b.locals[0][0].startswith("alloc::vec::Vec<write_fonts::graph::Overflow")]
+    if len(has) == 1:
+        HAS = has[0]
+    if len(find) == 1:
+        FIND = find[0]
+    pb = facts.body(PO, _fuzzy=False)
+    if pb is not None:
+        bs = sorted({t.callee for _, t in pb.calls() if sig(t.callee)[1] == "&mut" + GT and sig(t.callee)[2] == "bool"
+                     and any(t2.callee == HAS for _, t2 in facts.body(t.callee, _fuzzy=False).calls())})
+        if len(bs) == 1:
+            BS = bs[0]
 
 
 def takes_mut_graph(t):
@@ -215,12 +266,13 @@ def dedup_key_check(chk, facts):
 
 
 def run_config(chk, facts):
+    _resolve_graph(facts)
     dedup_key_check(chk, facts)
-    po = chk.anchor("C05-a", G + "pack_objects", facts.body(G + "pack_objects"))
-    bs = chk.anchor("C05-a", G + "basic_sort", facts.body(G + "basic_sort"))
+    po = chk.anchor("C05-a", PO, facts.body(PO))
+    bs = chk.anchor("C05-a", BS, facts.body(BS))
     chk.rule("C05-a", "T-STATE {dirty, clean}: any call taking &mut Graph makes the graph dirty; the no-overflow edge of "
                       "has_overflows() / find_overflows().is_empty() / basic_sort() makes it clean; `true` is returned only when clean")
-    for b, clean_true in ((bs, ()), (po, (G + "basic_sort",))):
+    for b, clean_true in ((bs, ()), (po, (BS,))):
         ex, findings = gate_check(chk, facts, b, clean_true)
         n_true = sum(1 for _, s, rv in ex.exits if rv == 1)
         desc = f"{b.path}: {len(ex.visited)} (block,state,facts) triples, {len(ex.exits)} exits ({n_true} return true)"
@@ -248,7 +300,7 @@ def run_config(chk, facts):
     # ---- C05-b -----------------------------------------------------------------------------------
     chk.rule("C05-b", "T-WHO/T-GUARD: Graph::serialize is called only from dump_table (library code), dominated by the true "
                       "edge of pack_objects() with no &mut Graph call in between; the false edge builds Error::PackingFailed")
-    ser = G + "serialize"
+    ser = SER
     callers = []
     for b in facts.all_bodies("write_fonts"):
         for bb, t in b.calls():
@@ -266,13 +318,13 @@ def run_config(chk, facts):
             while c[0] == "un" and c[1] == "Not":
                 c = c[2]
                 neg = not neg
-            if c[0] == "call" and c[1] == G + "pack_objects":
+            if c[0] == "call" and c[1] == PO:
                 truth = (g.taken_val != 0)
                 if neg:
                     truth = not truth
                 variants = [v for _, v in bail_error_variants(b, g)]
                 # no mutation between the pack_objects call and serialize
-                pk = [cb for cb, ct in b.calls() if ct.callee == G + "pack_objects"][0]
+                pk = [cb for cb, ct in b.calls() if ct.callee == PO][0]
                 between = [ct.callee for cb, ct in b.calls() if takes_mut_graph(ct) and cb != pk and b.dominates(pk, cb) and bb in b.reachable_from(cb)]
                 ok = truth and "PackingFailed" in variants and not between
                 chk.sample({"dump_table gate": g.cond_str(), "bail builds": variants, "mutations between": between})
@@ -282,7 +334,7 @@ def run_config(chk, facts):
     # ---- C05-c -----------------------------------------------------------------------------------
     chk.rule("C05-c", "T-CAST: in serialize::write_offset the resolved offset is narrowed only by u16::try_from / "
                       "Uint24::checked_new whose failure panics; no `as` narrowing of the offset value")
-    wo = chk.anchor("C05-c", "Graph::serialize::write_offset", facts.body(G + "serialize::write_offset"))
+    wo = chk.anchor("C05-c", "Graph::serialize::write_offset", facts.body(SER + "::write_offset"))
     narrow = []
     for bb, j, st in wo.stmts():
         if st[0] == "A" and st[2][0] == "cast" and st[2][1] == "IntToInt" and st[2][4] == "u32":
